@@ -19,7 +19,7 @@ RULE = ("(a) exhaustive sweep of all 2^(N*m) subintervals for every (N,m), N=2..
         "GetImage(1.0) must be the last subinterval's cell; (b) for larger densities up to N*m = 50, windows of consecutive subintervals at "
         "the start, the end, around every digit-carry position and at random positions: exact centres, probes agree, cells distinct inside "
         "the window; (c) arbitrary boxes: image = lower + u*side within 8 ulp and inside the box; (d) N=1: the image is the affine map, lies "
-        "in the closed cell of its subinterval and inside the segment. Non-trivial: every case; distinct = distinct (N, m, range/window/box).")
+        "in the closed cell of its subinterval and inside the segment; (e) the same x passed as Python float/int/bool, numpy float64/float32/longdouble/int64/int32 scalars must give the identical image. Non-trivial: every case; distinct = distinct (N, m, range/window/box).")
 ASSUMPTIONS = ["structural checks on the unit box only (exact dyadic arithmetic); arbitrary boxes compared with the affine map within 8 ulp of max(|lower|,|upper|,side)",
                "N=1: C09 defines the map as affine, so 'centre of the cell' is read as 'a point of the cell of subinterval i'",
                "N*m <= 50 so that i/2^(N*m) is exactly representable"]
@@ -59,6 +59,14 @@ def cases(tier, seed):
                     "nx": 150 if tier == "quick" else 400})
     for m in (1, 2, 3, 7, 10, 20, 33, 50):
         out.append({"kind": "n1", "N": 1, "m": m, "seed": seed})
+    # the same x given as Python float / int, numpy float64 / float32 / longdouble / integer scalars must land in the same cell
+    k = 0
+    for N in (1, 2, 3, 4, 5):
+        for m in sorted({1, 2, 3, 5, 8, 10, 12, 50 // N}):
+            if N * m > 50:
+                continue
+            out.append({"kind": "argtypes", "N": N, "m": m, "seed": seed, "i": k})
+            k += 1
     # one Evolvent object whose bounds are replaced with SetBounds between queries: "for arbitrary bounds" also means
     # the bounds in force now
     for i in range(24 if tier == "quick" else 240):
@@ -111,6 +119,47 @@ def run_case(c):
         return {"violations": viol, "obs": obs, "nontrivial": True, "key": "exh|%d|%d|%d" % (N, m, c["a"]),
                 "agg": {"kind": "exh", "N": N, "m": m, "a": c["a"], "b": c["b"], "bitmap": em.pack_bitmap(bits)},
                 "sample": {"kind": "exhaustive sweep", "N": N, "m": m, "subintervals": [c["a"], c["b"]], "images": images} if c["a"] == 0 else None}
+    if kind == "argtypes":
+        ev = em.unit_evolvent(N, m) if N > 1 else Evolvent([0.0], [1.0], 1, m)
+        n = 1 << (N * m)
+        xs = [0.0, 1.0, 0.5, 0.25, 0.75, 0.125, 1.0 - 2.0 ** -10, 2.0 ** -10, 1.0 - 2.0 ** -20, 0.3, 0.7, float(rng.random()), float(rng.random())]
+        xs += [float(rng.integers(0, 1 << 20)) / (1 << 20) for _ in range(6)] + [float(np.float32(rng.random())) for _ in range(6)]
+        types = [("float", float), ("np.float64", np.float64), ("np.float32", np.float32), ("np.longdouble", np.longdouble)]
+        npairs = 0
+        for x in xs:
+            ref = np.array(ev.GetImage(float(x)), dtype=float, copy=True)
+            cands = []
+            for name, T in types:
+                v = T(x)
+                if float(v) == float(x):           # the value itself must be unchanged by the conversion
+                    cands.append((name, v))
+            if x in (0.0, 1.0):
+                cands += [("int", int(x)), ("np.int64", np.int64(int(x))), ("np.int32", np.int32(int(x))), ("bool", bool(x))]
+            for name, v in cands:
+                try:
+                    got = np.array(ev.GetImage(v), dtype=float, copy=True)
+                except Exception as e:
+                    viol.append({"mech": "image-depends-on-argument-type", "N": N, "m": m, "x": x, "type": name, "exc": repr(e)})
+                    continue
+                npairs += 1
+                if N == 1:
+                    # the 1-D map is affine arithmetic carried out in the argument's own precision: equal up to its rounding
+                    same = got.shape == ref.shape and bool(np.all(np.abs(got - ref) <= (2.0 ** -21 if name == "np.float32" else 2.0 ** -50)))
+                else:
+                    same = got.shape == ref.shape and np.array_equal(got, ref)      # cell centres: identical
+                if not same:
+                    if len(viol) < 6:
+                        viol.append({"mech": "image-depends-on-argument-type", "N": N, "m": m, "x": x, "type": name, "image": got.tolist(),
+                                     "image_of_python_float": ref.tolist()})
+            if x == 1.0 and N > 1:
+                j1, _ = em.cell_of_unit_image(ref, m)
+                jl, _ = em.cell_of_unit_image(ev.GetImage((n - 1) / n), m)
+                if not np.array_equal(j1, jl):
+                    viol.append({"mech": "x=1-not-last-cell", "N": N, "m": m, "cell_of_1": j1.tolist(), "last_cell": jl.tolist()})
+        obs["argument_type_pairs"] = npairs
+        obs["argument_types"] = [t[0] for t in types] + ["int", "np.int64", "np.int32", "bool"]
+        return {"violations": viol, "obs": obs, "nontrivial": True, "key": "argtypes|%d|%d" % (N, m),
+                "sample": {"kind": "argument types", "N": N, "m": m, "pairs": npairs} if c["i"] == 0 else None}
     if kind == "win":
         ev = em.unit_evolvent(N, m)
         n = 1 << (N * m)
